@@ -12,9 +12,20 @@
 #define MAX_LINE_LEN (CAP)
 #endif
 
-int g_remaining, g_consumed, g_calls, g_good, g_eof, g_fail;
+int g_st[9];
+/* all int ghosts live in ONE array so that loop/function write sets have one entry for them (the cost of dfcc's
+ * per-write check grows with the number of entries) */
+#define g_remaining g_st[0]
+#define g_consumed g_st[1]
+#define g_calls g_st[2]
+#define g_good g_st[3]
+#define g_eof g_st[4]
+#define g_fail g_st[5]
+#define g_sc_from g_st[6]
+#define g_sc_k g_st[7]
+#define g_sc_e g_st[8]
 char* gp_host; int* gp_lineno;
-const char** gp_f1; const char** gp_f2; const char** gp_f3; const char** gp_f4; const char** gp_f5; _Bool* gp_isint;
+const char** gp_f0; const char** gp_f1; const char** gp_f2; const char** gp_f3; const char** gp_f4; const char** gp_f5; _Bool* gp_isint;
 int g_lineno0, g_total;
 int g_maxlen;                              /* == MAX_LINE_LEN, for the loop contracts (loops.json sees no macros) */
 int g_i;                                   /* ghost field index: "for every field i" */
@@ -24,7 +35,6 @@ int g_i;                                   /* ghost field index: "for every fiel
  * kind 0: not a blank, 1: blank or NUL, 2: NUL. */
 #define P_KIND(kind, c) ((kind) == 0 ? ((c) != ' ') : ((kind) == 1 ? ((c) == ' ' || (c) == '\0') : ((c) == '\0')))
 char* gp_buf; char* gp_save;
-int g_sc_from, g_sc_k, g_sc_e;
 #define FIRST_POS(kind) \
    __CPROVER_assert(0 <= g_sc_from && g_sc_from < MAX_LINE_LEN, "string argument points into m_buf"); \
    __CPROVER_assert(__CPROVER_exists { int j; (0 <= j && j < MAX_LINE_LEN) && (j >= g_sc_from && gp_buf[j] == '\0') }, \
@@ -86,8 +96,8 @@ __CPROVER_requires(0 <= g_remaining && g_remaining <= BIG && g_total == g_remain
 __CPROVER_requires(__CPROVER_is_fresh(off, 6 * sizeof(int)) && __CPROVER_is_fresh(end_i, sizeof(int)) && __CPROVER_is_fresh(end_prev, sizeof(int)))
 __CPROVER_requires(__CPROVER_is_fresh(c0, 1) && __CPROVER_is_fresh(lineno_out, sizeof(int)))
 __CPROVER_requires(0 <= g_i && g_i < 6 && g_maxlen == MAX_LINE_LEN)
-__CPROVER_assigns(g_remaining, g_consumed, g_calls, g_good, g_eof, g_fail, gp_save, gp_host, gp_lineno, gp_buf, gp_f1, gp_f2, gp_f3, gp_f4, gp_f5, gp_isint,
-                  g_sc_from, g_sc_k, g_sc_e, __CPROVER_object_whole(off), *end_i, *end_prev, *c0, *lineno_out)
+__CPROVER_assigns(__CPROVER_object_whole(g_st), gp_save, gp_host, gp_lineno, gp_buf, gp_f0, gp_f1, gp_f2, gp_f3, gp_f4, gp_f5, gp_isint,
+                  __CPROVER_object_whole(off), *end_i, *end_prev, *c0, *lineno_out)
 /* every field g_i: NULL, or inside the buffer with a terminator behind it inside the buffer (the terminator's
  * existence is the assertion inside verif_first_nul(), its position is *end_i) */
 __CPROVER_ensures(__CPROVER_return_value ==> (off[g_i] == -1 || (0 <= off[g_i] && off[g_i] < *end_i && *end_i <= MAX_LINE_LEN - 1)))
@@ -99,7 +109,7 @@ __CPROVER_ensures((__CPROVER_return_value && off[0] >= 0) ==> (off[0] == 0 && of
 /* a field is never empty and never starts with a blank */
 __CPROVER_ensures((__CPROVER_return_value && off[g_i] >= 0) ==> (*c0 != '\0' && *c0 != ' '))
 /* line counter == number of getline() calls; false only after a stream failure */
-__CPROVER_ensures(*lineno_out == g_lineno0 + g_calls && g_consumed + g_remaining == g_total && g_calls >= 1)
+__CPROVER_ensures(*lineno_out == g_lineno0 + g_calls && g_consumed + g_remaining == g_total)
 __CPROVER_ensures(!__CPROVER_return_value ==> (!g_good && !g_eof))
 ;
 
